@@ -62,7 +62,7 @@ def compare(case, go, m):
 
 def correspond(ctx, C):
     st = S.SpecStats()
-    rows = S.run(ctx, C, "speccat", 128, 1280) + S.run(ctx, C, "spec", 256, 20000)
+    rows = S.run(ctx, C, "speccat", 128, 1280) + S.run(ctx, C, "spec", 256, 4000)
     viol, ties = [], []
     compared = 0
     for r in rows:
@@ -77,7 +77,8 @@ def correspond(ctx, C):
         if breach:
             (ties if breach.get("tie") else viol).append((r["case"], breach))
     npf, pfbad = S.pathfuncs_tie(ctx, C, ("extract", "strip"))
-    ties = ties + pfbad
+    nwhole, wbad = S.whole_model_tie(rows)
+    ties = ties + pfbad + wbad
     out = viol[:3]
     if not out and ties:
         case, info = ties[0]
@@ -86,4 +87,5 @@ def correspond(ctx, C):
     cov["documents_compared_rule_by_rule"] = compared
     cov["tie_mismatches"] = len(ties)
     cov["string_function_cases"] = npf
+    cov["whole_model_verdicts_compared"] = nwhole
     return {"coverage": cov, "violations": out, "known": []}
